@@ -57,6 +57,11 @@ CLAIMED = {
     'C12': ('Bounded model checking of the interval dynamic programme optimalPartition (and its wiring through optimalSegmentation) on a fully symbolic '
             'cost matrix: on every path the returned partition is proved optimal against all 2^(N-2) enumerated partitions, for both directions.',
             'DESIGN.md#c12', 'N <= 5 candidates fully explored (thorough: N = 6 under budget); costs in [0,100]', ''),
+    'C13': ('Bounded model checking of the write-then-read glue with a token (contract) model of number formatting and parsing: symbolic coordinates and timestamp fields are written by the real '
+            'writers to real files and read back by the real readers; format(<symbolic>, spec) yields an opaque token tied to a fresh symbol within half a unit of the precision parsed from the spec '
+            'actually used, and float() / int() in the readers map tokens back. Per path the solver proves each value routed to the right field within the demanded precision and the timestamp equal '
+            'field by field, for every CSV column layout x separator x coordinate system, GPX (trk), WKT text and a network CSV with the three orientations and multi-vertex geometries.',
+            'DESIGN.md#c13', "Python's own number formatting / parsing, rendered widths, KML and analytical-feature columns are outside the claim; blank separator with a timestamp column and the GPX elevation of ENU tracks are recorded known findings", ''),
     'C14': ('PARTIAL (algebraic sub-claims only). Bounded model checking of the frame rotations and of the forward ellipsoid formula through the real methods with sin / cos / atan2 as uninterpreted, '
             'memoised functions plus the circle identity: ECEF -> ENU(base) -> ECEF(base) and ENU -> ECEF(base) -> ENU(base) proved to be the identity for every point and every (ECEF or geographic) base; '
             'the base maps to (0,0,0); GeoCoords.toECEFCoords proved equal to the closed-form WGS84 expressions for all lon / lat / h; Track.toENUCoords applies the point conversion to every observation '
